@@ -29,7 +29,7 @@ THEOREMS = {"C04": ["apply_patch_replay", "apply_patch_verdicts", "verdicts_are_
                     "run_patch_file_reapplied_N", "apply_patch_force", "process_section_with_apply",
                     "section_force_no_guess", "force_messages", "stats_only_head"], "C15": ["dry_run_pure", "dry_run_predicts", "dry_run_predicts_single", "dry_run_predicts_run_single", "dry_run_predicts_sections", "dry_run_predicts_run_sections", "dry_section_frame", "dry_run_series_same_file_refuted"], "C16": ["section_ops_allowed", "finalize_ops_allowed", "finalize_removals_allowed", "exec_op_frame", "steps_frame", "steps_frame_ok", "run_frame", "steps_frame_static", "run_frame_static", "run_frame_nolinks", "loop_run_allowed", "run_ops_allowed"],
             "C17": ["write_now_sets_mode", "refusal_writes_only_rejects", "git_section_mode", "section_git_next",
-                    "git_series_mode"],
+                    "git_series_mode", "section_refused_gen", "process_patch_refused", "read_only_refused_run", "no_write_bits_owner", "not_regular_refused_run", "run_patch_refused", "run_patch_file_refused"],
             "C18": ["backup_name_spec", "make_backup_for_shape", "ensure_extends", "backup_holds_original", "backup_only_once",
                     "series_backup_two_gen", "series_backup_two", "backup_before_first_write", "git_series_backup", "late_backup_plain_series_refuted"]}
 
